@@ -261,7 +261,7 @@ PROPS["C10"] = dict(
           "still reads its own ownership stamp plus its own writes over its whole capacity (no shared storage). Non-trivial: a get that returned a recycled "
           "object (pointer previously passed to Put); sub-classes recycled after dirty use, after reslice-to-shorter, with L>0, several outstanding."),
     quick=dict(rapid=dict(checks=20000, shards=8)),
-    thorough=dict(rapid=dict(checks=100000, shards=16), fuzz=dict(targets=["FuzzC10"], seconds=30)),
+    thorough=dict(rapid=dict(checks=50000, shards=16), fuzz=dict(targets=["FuzzC10"], seconds=30)),
     assumptions=COMMON_ASSUME + ["sync.Pool hands a just-put object back to the same goroutine almost always; the class histogram in the evidence shows how often a recycled buffer was observed"],
     technique="model-based stateful property testing (rapid-generated operation histories, shrunk as one value) + bounded-exhaustive get/use/reslice/put/get sweep; freshness and ownership-stamp invariants after every step",
     level_text=("Generated pool histories against a freshness invariant and per-buffer ownership models; the reuse path is enumerated exhaustively for histories "
@@ -320,6 +320,9 @@ PROPS["C11"] = dict(
                 "preemption point is out of reach (DESIGN.md section 6)."),
     level_note="Race reports are turned into violations with the process log as the replay artefact.",
 )
+FIRSTUSE = [dict(name="firstuse-" + t, run="TestFirstUse", env={"VERIF_FIRST_TYPE": t})
+            for t in ["int8", "uint8", "int16", "uint16", "int32", "uint32", "int64", "uint64", "float32", "float64"]]
+
 PROPS["C19"] = dict(
     pkg="c19", idx=19, race=True,
     rule=("Cases = (element type, channels, frames F, R readers + W writers <= 16, GOMAXPROCS in {1,2,4,8,16}, per-goroutine scripts of up to 40 operation codes and yield masks). "
@@ -329,8 +332,8 @@ PROPS["C19"] = dict(
           "no synchronisation besides a start barrier and the WaitGroup. Oracle: race detector silent; every reader result equals the same script run sequentially beforehand; "
           "afterwards the whole buffer equals the sequential execution of the writers' scripts and the header is unchanged. Non-trivial: R>=2 and W>=2 with GOMAXPROCS>=2 "
           "(sub-classes concurrentReaders, concurrentDisjointWriters)."),
-    quick=dict(rapid=dict(checks=250, shards=8), timeout=900),
-    thorough=dict(rapid=dict(checks=1500, shards=12), timeout=3600),
+    quick=dict(rapid=dict(checks=250, shards=8), timeout=900, extra=FIRSTUSE),
+    thorough=dict(rapid=dict(checks=1500, shards=12), timeout=3600, extra=FIRSTUSE),
     assumptions=COMMON_ASSUME + ["schedules are sampled by the Go scheduler, not enumerated; a failing schedule cannot be replayed deterministically (replay re-runs the case repeatedly)",
                                  "the race detector reports unordered conflicting accesses that actually executed"],
     technique="randomised concurrent stress under the Go race detector with rapid-generated reader/writer scripts; differential oracle against the sequential execution of the same scripts",
